@@ -793,6 +793,7 @@ func runC15(cw *caseWriter, tier string, seed uint64) {
 	cw.note("NOTE", "C15 program alphabet: 1 mkdir.tmp 2 create-meta 3 write-meta 4 fsync-meta 5 create-state 6 write-state(n) 7 fsync-state 8 rename 9 fsync-dir 10/11/12 unlink-meta/unlink-state/rmdir (t=1 while .tmp); unlink pairs inside RemoveAll are emitted meta-first, the order really seen is in the c15_removeall_unlink_* counters")
 	// timings go to stderr so that the case file stays a function of (tier, seed)
 	fmt.Fprintf(os.Stderr, "c15: %d scripts traced in %v, crash images %v, explicit images %v\n", len(jobs), tTrace.Round(time.Millisecond), tImg.Round(time.Millisecond), tX.Round(time.Millisecond))
+	runC15fail(cw, tier, seed)
 }
 
 // replay support: the program of the last script is kept, so that replaying the many 1502 cases of
